@@ -90,6 +90,7 @@ type c15State struct {
 	img       []byte
 	idx       []byte
 	dirty     map[string]bool // repositories that received a successful write during the case
+	uncertain map[string]bool // session ids whose liveness this oracle no longer knows
 }
 
 // certainlyAbsent: the digest cannot be in the repository (never pushable from the generator's bodies, or the
@@ -111,7 +112,7 @@ var c15Cfg = []byte("{}")
 
 // c15Prepare builds one of the prepared states.
 func c15Prepare(t *rapid.T) (*c15State, func()) {
-	s := &c15State{healthy: map[string]bool{}, corrupt: map[string]bool{}, present: map[string]bool{}, manifests: map[string]bool{}, dirty: map[string]bool{}}
+	s := &c15State{healthy: map[string]bool{}, corrupt: map[string]bool{}, present: map[string]bool{}, manifests: map[string]bool{}, dirty: map[string]bool{}, uncertain: map[string]bool{}}
 	s.kind = rapid.SampledFrom([]string{"empty", "populated", "populated", "populated-sessions", "read-only", "dir-corrupt-legacy"}).Draw(t, "state")
 	s.dirStore = rapid.Bool().Draw(t, "dirStore") || s.kind == "dir-corrupt-legacy" || s.kind == "read-only"
 	store := config.StoreMem
@@ -449,6 +450,9 @@ func c15Property(t *rapid.T, st *Stats) {
 					live = true
 				}
 			}
+			if s.uncertain[rt.arg] {
+				break // an earlier refused PUT may or may not have ended this session
+			}
 			if !live {
 				if r.code < 400 || r.code >= 500 || !hasCode("BLOB_UPLOAD_UNKNOWN") {
 					fail("code-upload-unknown", "%s on unknown session %s/%q: status %d body %q, want 4xx BLOB_UPLOAD_UNKNOWN", q.method, rt.repo, trunc([]byte(rt.arg), 40), r.code, trunc(r.body, 120))
@@ -463,7 +467,10 @@ func c15Property(t *rapid.T, st *Stats) {
 					classes["cond:range-invalid"] = true
 				}
 				// the session may be consumed by this request
-				if r.code == 201 || (r.code == 400 && q.method == "PUT") {
+				if r.code >= 400 && q.method == "PUT" {
+					s.uncertain[rt.arg] = true // refused before or after the data was taken: unknown to this oracle (C08 decides)
+				}
+				if r.code == 201 {
 					s.dead = append(s.dead, rt.arg)
 					for j, id := range s.sessions {
 						if id == rt.arg {
